@@ -275,34 +275,34 @@ def resp_bytes(r):
     return h8.tlv_bytes(1, h8.fs_value(action, status % 16, first, second, msg))
 
 
-def _finish(ids, flags, direction, code, body, keep_direction=None):
+def _finish(ids, flags, direction, code, body, keep_direction=None, meta=0):
     mode, large, crc, d, seg = flags
     dlen = 1 + len(body) + (2 if crc else 0)
-    pre = h5.layout(ids, [mode, large, crc, direction if keep_direction is None else keep_direction, seg], [0, 0, dlen]) + [code] + body
+    pre = h5.layout(ids, [mode, large, crc, direction if keep_direction is None else keep_direction, seg], [0, meta, dlen]) + [code] + body
     if crc:
         c = h5.crc16_bitwise(pre)
         pre = pre + [c >> 8, c & 0xFF]
     return pre
 
 
-def fin_layout(ids, flags, codes, fault, resps, keep_direction=None, code=5):
+def fin_layout(ids, flags, codes, fault, resps, keep_direction=None, code=5, meta=0):
     cc, dc, fs = codes
     body = [cc * 16 + dc * 4 + fs]
     for r in resps:
         body += resp_bytes(r)
     if fault and fault[0] == 1 and cc not in (0, 11):
         body += h8.tlv_bytes(6, fault[1:])
-    return _finish(ids, flags, 1, code, body, keep_direction)
+    return _finish(ids, flags, 1, code, body, keep_direction, meta)
 
 
-def md_layout(ids, flags, par, src, dst, opts, keep_direction=None, code=7):
+def md_layout(ids, flags, par, src, dst, opts, keep_direction=None, code=7, meta=0):
     cl, cs, fsize = par
     body = [cl * 64 + cs] + list(fsize.to_bytes(8 if flags[1] else 4, "big"))
     body += h8.lv_bytes(src[1:] if src and src[0] != 0 else [])
     body += h8.lv_bytes(dst[1:] if dst and dst[0] != 0 else [])
     for t in opts or []:
         body += h8.tlv_bytes(t[0], t[1:])
-    return _finish(ids, flags, 0, code, body, keep_direction)
+    return _finish(ids, flags, 0, code, body, keep_direction, meta)
 
 
 def fin_lay(a):
@@ -784,7 +784,7 @@ def _check_decoded_fin(b, f, what):
     if hd[0] != 0 or dt != 5:
         return None      # a different PDU decoded as Finished: the caller's responsibility (docstring)
     try:
-        exp = fin_layout(ids, flags, codes, fault, resps, keep_direction=flags[3])
+        exp = fin_layout(ids, flags, codes, fault, resps, keep_direction=flags[3], meta=hd[1])   # direction / metadata flag: kept as found
     except (OverflowError, ValueError):
         exp = None
     got = list(b[:pl])
@@ -806,7 +806,7 @@ def _check_decoded_md(b, f, what):
     if hd[0] != 0 or dt != 7:
         return None
     try:
-        exp = md_layout(ids, flags, par, [1] + srcv, [1] + dstv, opts, keep_direction=flags[3])
+        exp = md_layout(ids, flags, par, [1] + srcv, [1] + dstv, opts, keep_direction=flags[3], meta=hd[1])
     except (OverflowError, ValueError):
         exp = None
     got = list(b[:pl])
@@ -877,7 +877,9 @@ def oracle(case, ires, sres):
             return ("C06/FinishedPdu.unpack/length" + tag, "decoded header %s lens %s packet_len %d, packed PDU has %d octets (header %d)" % (hd, lens, plen, len(exp), hl))
         if ids != a[0] or flags != [a[1][0], a[1][1], a[1][2], 1, a[1][4]]:
             return ("C06/FinishedPdu.unpack/header-fields" + tag, "%s %s decoded as %s %s" % (a[0], a[1], ids, flags))
-        if eq != [0, 1]:
+        # a fault location together with NO_ERROR / UNSUPPORTED_CHECKSUM_TYPE is not a parameter set of 727.0-B-5
+        # (the location is not transmitted), so equality is only required of valid parameter sets
+        if eq != [0, 1] and want_fault == (a[3] if a[3] and a[3][0] == 1 else [0]):
             return ("C06/FinishedPdu.__eq__/roundtrip" + tag, "decoded PDU compared with the original: %s" % eq)
         if repack != [0] + exp:
             return ("C06/FinishedPdu.pack/repack" + tag, "re-packed %s, original %s" % (repack[:56], exp[:56]))
